@@ -736,6 +736,17 @@ class Bubble(Box):
         """ The diagram inside a bubble. """
         return self._inside
 
+    @property
+    def free_symbols(self):
+        return self.inside.free_symbols
+
+    def subs(self, *args):
+        return type(self)(self.inside.subs(*args), self.dom, self.cod)
+
+    def lambdify(self, *symbols, **kwargs):
+        return lambda *xs: type(self)(
+            self.inside.lambdify(*symbols, **kwargs)(*xs), self.dom, self.cod)
+
     def __eq__(self, other):
         if isinstance(other, Bubble):
             return (self.dom, self.cod, self.inside)\
